@@ -41,7 +41,16 @@ def sample_names(rng, n):
                 out.append(nm)
                 break
             style = 2
+    if n and rng.random() < 0.12:
+        # a sample whose name looks like a column header, a missing-value token or a keyword
+        w = rng.choice(WORDLIKE_NAMES)
+        if w not in names:
+            out[rng.randrange(n)] = w
     return out
+
+
+WORDLIKE_NAMES = ["sample", "SAMPLE", "Sample", "#sample", "NA", "population", "id", "ID", "name", "0", "1", "nan", "null", "None", "unnamed", "sample_id"]
+WORDLIKE_LABELS = ["[unnamed]", "NA", "na", "NaN", "null", "None", "unnamed", "0", "1", "population", "pop", "sample"]
 
 
 def random_gt(rng, kind, max_allele):
@@ -171,11 +180,22 @@ def random_sample_map(rng, samples, npops=None, subset=True):
     npops = npops if npops is not None else rng.randint(1, min(4, k))
     npops = min(npops, k)
     labels = rng.sample(["A", "B", "popC", "D_4", "e", "YRI", "CEU", "x.y", "P-1", "East Asia", "East Africa"], npops)
+    if rng.random() < 0.25:
+        # a label that looks like the tool's own name for the unnamed population, a missing-value token or a keyword
+        labels[rng.randrange(npops)] = rng.choice(WORDLIKE_LABELS)
     if rng.random() < 0.3:
-        labels[rng.randrange(npops)] = None          # one unnamed population
+        j_ = rng.randrange(npops)
+        if npops == 1 or labels[j_] not in WORDLIKE_LABELS or rng.random() < 0.3:
+            labels[j_] = None          # one unnamed population (often next to a word-like label)
+        else:
+            labels[(j_ + 1) % npops] = None
     assign = [labels[i] for i in range(npops)] + [rng.choice(labels) for _ in range(k - npops)]
     rng.shuffle(assign)
-    return list(zip(chosen, assign))
+    out = list(zip(chosen, assign))
+    wl = [i for i, (s_, _) in enumerate(out) if s_ in WORDLIKE_NAMES]
+    if wl and rng.random() < 0.6:
+        out.insert(0, out.pop(wl[0]))     # a word-like sample name on the first line of the list
+    return out
 
 
 def map_to_arg(sample_map):
